@@ -8,8 +8,12 @@ BASE = ("Trusted base: the SMT solvers; govc's translation of go/ssa (NaiveForm)
         "the assumed library contracts in /verif/spec (reflect, math/big, encoding/json, strings, ...), each listed in the evidence when used; spec axioms defining the JSON view of a reflect.Value. ")
 
 CHECKS = {
+ "C01": ("Proved, for every schema and every JSON-shaped instance in any representation: (a) no false rejection for the directly asserting keywords type, minimum, maximum, exclusiveMinimum, exclusiveMaximum, minLength, maxLength, minItems, maxItems, minProperties, maxProperties — at every site where validate builds the corresponding error, the keyword's violation condition over the JSON view of the instance (written from the 2020-12 validation text: exact rational comparison, code-point length, array length, member count, 'number' subsumes 'integer') is an obligation that holds; (b) the anyOf and oneOf loops examine every branch (no early exit), as the annotation rules require. One recorded finding (string keywords applied to json.Number).",
+         "Partial: the converse direction (no false acceptance) and the applicator/unevaluated keywords are not yet under functional contracts; enum/const/uniqueItems, contains, required, dependent*, patternProperties, $ref targets are covered for safety and frames only. multipleOf and regular expressions are uninterpreted. " + BASE),
  "C02": ("Proved postconditions, for all inputs: isValidSchemaVersion(v) == supported(v) and detectDraft/newResolved select draft-07 exactly for the two draft-07 $schema URIs (spec functions written from the property statement); Validate returns a non-nil error whenever the root's $schema is unsupported, on every path (refusal before validation).",
          "Covers draft detection and refusal only. The draft-07 evaluation rules inside validate ($ref siblings ignored, items array/additionalItems, dependencies), fragment-$id anchors and draft inheritance of loaded documents are not yet under functional contracts. " + BASE),
+ "C06": ("Proved about the dynamic part of $dynamicRef in validate: the search loop over the evaluation stack stops at the FIRST (outermost) stack entry whose schema resource declares the anchor as dynamic (loop invariant: no earlier entry does; on normal exit no entry does, and then an error is returned); the evaluation stack is maintained exactly: on every return path (all ~50, including error returns and panicking-free defers) the stack has the length and the elements it had on entry, and every recursive call sees the stack extended by exactly the current schema — so no dynamic scope leaks to siblings or to a later Validate call (Validate allocates a fresh state).",
+         "Not yet proved: that the schema finally validated is the anchor's schema (the obligation is stated but not discharged within the time limit, so it is not claimed), the static split done by resolveRefs (dynamicRefAnchor set iff the lexical target's anchor is dynamic), and that the verdict then equals that of the target schema. " + BASE),
  "C07": ("Proved for every return path of (*state).validate (≈50 error returns, all loops, all recursive calls): if validate returns an error, the caller's annotations record (all five fields and the contents of both evaluated-* maps) is exactly what it was on entry — evaluations made inside a failing subschema never reach the caller; recursive calls are used through the same contract. Loop invariants carry the fact through all 29 loops.",
          "This is the 'failed subschema does not count' half of the property plus the frame facts (only the final merge writes the caller's record). That the merged record equals the specification's annotation set (which keywords contribute what; not / cousins / child locations) is not yet proved. " + BASE),
  "C08": ("Proved postconditions of the two classification helpers for an arbitrary reflect.Value in the JSON-shaped domain: jsonNumber(v) succeeds exactly when the JSON view jv(v) is a number and then returns exactly its rational value (every int/uint/float kind and json.Number); jsonType(v) returns typeName(jv(v)) for every kind — with one recorded known finding (json.Number is classified as string).",
@@ -29,11 +33,9 @@ CHECKS = {
 }
 
 NA = {
- "C01": "not yet claimed: the functional contract of validate against the 2020-12 validity relation is under construction (safety, frames and annotation no-leak are proved under C10/C13/C14/C07)",
  "C03": "not yet claimed: resolver step contracts under construction",
  "C04": "not yet claimed: forType contract against the inference table under construction",
  "C05": "not yet claimed: per-field marshal/unmarshal table obligations under construction",
- "C06": "not yet claimed: dynamic-scope search loop contract under construction",
  "C09": "not yet claimed: depends on the forType contract (C04)",
  "C12": "not yet claimed: hashValue / uniqueItems contracts under construction",
  "C15": "not yet claimed: applyDefaults contract under construction",
